@@ -11,6 +11,7 @@ def U(**k):
     units.append(k)
 
 MSG = ["janet_formatc/fib_formatc_c", "janet_cstring/fib_cstring_c"]
+CADICAL = ["--sat-solver", "cadical"]   # minisat's preprocessor does not finish on these instances (probed); cadical: < 1 min
 CHK = ["bounds-check", "pointer-check", "signed-overflow-check"]
 
 U(id="fib.check_can_resume", **{"class": "full-domain"},
@@ -33,7 +34,7 @@ U(id="fib.continue_no_check", **{"class": "full-domain"},
          "status on return equals the returned signal; janet_vm.fiber/stackn/return_reg/signal_buf/coerce_error/gc_suspend restored on every path incl. longjmp; "
          "a child signal the child's mask does not accept is re-raised unchanged and not delivered to this fiber; *out == last_value == return register",
   src=["vm.c"], link=["fiber.c"], link_keep=KEEP, harness=["fib_continue.c"], entry="h_no_check",
-  mode="dfcc", enforce=["janet_continue_no_check/fib_no_check_c"], replace=RUNVM + ["janet_continue/fib_continue_child_c"], checks=CHK,
+  mode="dfcc", enforce=["janet_continue_no_check/fib_no_check_c"], replace=RUNVM + ["janet_continue/fib_continue_child_c"], checks=CHK, cbmc=CADICAL,
   functions=["janet_continue_no_check", "janet_try_init", "janet_restore"],
   assumes=["run_vm (interpreter loop) is replaced by the contract fib_run_vm_c: writes *fiber, janet_vm, *janet_vm.return_reg; returns a signal 0..13",
            "second return of setjmp = contract fib_setjmp_c: havocs what run_vm havocs, returns 1..13 (janet_signalv only longjmps with a JanetSignal; value 0 is mapped to 1 by longjmp)",
